@@ -2,7 +2,7 @@
    as long as no delete-by-text removed somebody else's entry (ghost flag [s_stolen]), every
    successfully prepared pool-level statement is closed, or about to be closed by a spawned
    goroutine, or carried by an entry that is in the current map or has a live closer. *)
-From Verif Require Import Base C14_Model C14_Check C14_Proofs2 C14_Proofs3 C14_Proofs4 C14_Proofs5 C14_Proofs6 C14_Proofs7.
+From Verif Require Import Base C14_Model C14_Count C14_Proofs2 C14_Proofs3 C14_Proofs4 C14_Proofs5 C14_Proofs6 C14_Proofs7.
 
 Definition inmap (s : state) (e : nat) : Prop := exists k, mlookup (s_map s) k = Some e.
 Definition has_thr (s : state) (P : pc -> Prop) : Prop :=
